@@ -136,8 +136,9 @@ def write_evidence(ctx, level, nviol):
         "wall_s": round(time.time() - ctx.t0, 2),
         "violations": nviol,
     }
-    os.makedirs(os.path.join(VERIF, "evidence"), exist_ok=True)
-    path = os.path.join(VERIF, "evidence", ctx.prop + ".json")
+    evdir = os.environ.get("VERIF_EVIDENCE_DIR") or os.path.join(VERIF, "evidence")  # (runs against a deliberately broken copy write elsewhere)
+    os.makedirs(evdir, exist_ok=True)
+    path = os.path.join(evdir, ctx.prop + ".json")
     tmp = path + ".tmp"
     with open(tmp, "w") as f:
         json.dump(ev, f, indent=1, default=str)
